@@ -37,8 +37,8 @@ def to_actions(script, T):
             out.append(("multi", [(secs(d, T), b if isinstance(b, bytes) else bytes.fromhex(b)) for d, b in a[1]]))
         elif k == "exc":
             out.append(("exc", secs(a[1], T), a[2]))
-        elif k == "frag":
-            out.append(("frag", a[1], secs(a[2], T), secs(a[3], T)))
+        elif k in ("frag", "frag_then_full"):
+            out.append((k, a[1], secs(a[2], T), secs(a[3], T)))
         elif k == "lone":
             out.append(("lone", a[1], secs(a[2], T)))
         elif k == "dup":
